@@ -8,7 +8,8 @@ Trace lines: `! new <req> <prefault>` `? page <p>` `< created <size>` | `< refus
 `! full` `< bool b`; `! reset` / `! write <seed>` / `! prefault` `< unit`; `! read <off> <len>` `< bytes <hex>`;
 `! destroy` `< released <mapped> <file>`; any operation without a buffer `< nobuf`; `< panic`.
 `! label <text>` marks the script as outside the property (negative amounts): the monitor is
-switched off for the rest of the script, the model comparison stays on. -/
+switched off for the rest of the script, the model comparison stays on.  The same happens at the
+first operation that is outside `OpOk` (a negative amount), labelled or not. -/
 namespace Driver.MirroredSpec
 open Sonic.Spec.Mirrored
 
@@ -116,6 +117,9 @@ def checkWith {σ : Type} (sc : Driver.Script) (m0 : σ)
           res := { res with ops := res.ops + 1 }
           let (m', res') := mstep m op ob res i
           m := m'; res := res'
+          if ¬ OpOk op then
+            -- a negative amount: outside what C11 quantifies over, the script is no longer monitored
+            s := none; res := { res with tags := Driver.addTag res.tags "unmonitored" }
           match s with
           | some st =>
             match cstep st op ob with
